@@ -247,6 +247,20 @@ func c12V1(r *Run, cs consensus.State) {
 			r.violate("c12.v1-wholesighash:"+idxRe.ReplaceAllString(l.path, "[]"), "v1 field %s: WholeSigHash changed=%v", l.path, w1 != w0)
 		}
 	}
+	// the v1 Merkle leaf hash (what the v2 block commitment hashes) binds every field, signatures included
+	m0 := txn.MerkleLeafHash()
+	for _, l := range ls {
+		undo := mutateLeaf(l)
+		m1 := txn.MerkleLeafHash()
+		undo()
+		if strings.Contains(l.path, "FileContractRevisions[") && strings.Contains(l.path, ".FileContract.Payout") {
+			continue
+		}
+		r.count("oracle-v1-leafhash")
+		if m1 == m0 {
+			r.violate("c12.v1-merkle-leaf-hash:"+idxRe.ReplaceAllString(l.path, "[]"), "v1 field %s does not influence the transaction's Merkle leaf hash (block commitment)", l.path)
+		}
+	}
 	// partial signatures: exactly the covered fields are bound
 	cf := types.CoveredFields{}
 	if len(txn.SiacoinOutputs) > 0 {
@@ -303,6 +317,41 @@ func runC12(r *Run) {
 		}
 		seen[sh] = uint64(era)
 		r.count("oracle-replay-prefix")
+	}
+	// the same for partial signatures, covering siacoin inputs only / siafund inputs only / both
+	var ptxn types.Transaction
+	for len(ptxn.SiacoinInputs) == 0 || len(ptxn.SiafundInputs) == 0 {
+		ptxn = types.Transaction{}
+		r.fill(reflect.ValueOf(&ptxn).Elem(), 0)
+	}
+	for ci, cf := range []types.CoveredFields{{SiacoinInputs: []uint64{0}}, {SiafundInputs: []uint64{0}}, {SiacoinInputs: []uint64{0}, SiafundInputs: []uint64{0}}} {
+		pseen := map[types.Hash256]int{}
+		for _, h := range []uint64{n.HardforkASIC.Height, n.HardforkFoundation.Height, n.HardforkV2.AllowHeight} {
+			if h == 0 {
+				continue
+			}
+			for _, hh := range []uint64{h - 1, h} {
+				s := cs
+				s.Index.Height = hh
+				era := 0
+				switch {
+				case hh >= n.HardforkV2.AllowHeight:
+					era = 3
+				case hh >= n.HardforkFoundation.Height:
+					era = 2
+				case hh >= n.HardforkASIC.Height:
+					era = 1
+				}
+				sh := s.PartialSigHash(ptxn, cf)
+				for sh2, era2 := range pseen {
+					if (sh2 == sh) != (era2 == era) {
+						r.violate("c12.replay-prefix-partial", "PartialSigHash (coverage %d) at height %d (era %d) vs era %d: equal=%v", ci, hh, era, era2, sh2 == sh)
+					}
+				}
+				pseen[sh] = era
+				r.count("oracle-replay-prefix-partial")
+			}
+		}
 	}
 	// derived IDs: recomputed by the model, and pairwise distinct over kinds and indices
 	all := map[types.Hash256]string{}
